@@ -14,6 +14,41 @@ func rootComplete(st *vStore, r *Root) bool {
 	return complete
 }
 
+// unstoredBelowInMemoryTop: the tree's top node is still an in-memory node, and somewhere below it
+// (through in-memory nodes and stored ones alike) a child is named that the store does not hold.
+// That is the state the open finding describes: flush replaces child pointers by names before the
+// writes complete, so after a failed persist the tree can name children that were never written.
+// A tree whose *root* has become an unstored name is not in this class.
+func unstoredBelowInMemoryTop(t *Mast, st *vStore) bool {
+	top, ok := t.root.(*mastNode)
+	if !ok || top == nil {
+		return false
+	}
+	var walk func(l interface{}) bool
+	walk = func(l interface{}) bool {
+		switch l := l.(type) {
+		case string:
+			return !walkPersisted(st, l, 0, false, func(*pnode) {})
+		case *mastNode:
+			if l == nil {
+				return false
+			}
+			for _, c := range l.Link {
+				if walk(c) {
+					return true
+				}
+			}
+		}
+		return false
+	}
+	for _, c := range top.Link {
+		if walk(c) {
+			return true
+		}
+	}
+	return false
+}
+
 // C03: a successfully returned root is complete and durable; store failures are
 // reported; retries. Every schedule of flush's goroutines within the preemption
 // bound is explored; the failing Store is the one whose node starts with a chosen key.
@@ -46,15 +81,16 @@ func HarnessC03a() {
 	verifNote("makeroot-failed")
 	// the tree stays fully usable after the error
 	faultsOn = false
+	dangling := unstoredBelowInMemoryTop(t, st)
 	ks2, vs2, ierr := iterAll(t)
-	verifClass("C03.links-to-unstored-nodes-after-failed-persist", st.failed > 0)
+	verifClass("C03.links-to-unstored-nodes-after-failed-persist", dangling)
 	verifAssert("C03.usable-after-error.iter", ierr == nil)
 	if ierr == nil {
 		verifAssert("C03.usable-after-error.contents", seqMatches(ks2, vs2, md))
 	}
 	var out uint64
 	_, gerr := t.Get(vctx, probe, &out)
-	verifClass("C03.links-to-unstored-nodes-after-failed-persist", st.failed > 0)
+	verifClass("C03.links-to-unstored-nodes-after-failed-persist", dangling)
 	verifAssert("C03.usable-after-error.get", gerr == nil)
 	// a second tree with the same contents, persisted through the same store and cache: success
 	// only if complete (a failed write must not count as "already persisted")
